@@ -53,7 +53,11 @@ class NotOrMacro(Macro):
         """args is the negation we want to prove
         prevs is the negative disjunction
         """
+        if len(args) != 1 or len(prevs) != 1:
+            raise VeriTException("not_or", "must have a single conclusion and a single premise")
         goal, pt0 = args[0], prevs[0]
+        if not goal.is_not() or not pt0.prop.is_not():
+            raise VeriTException("not_or", "premise and conclusion must be negations")
         disjs = pt0.prop.arg.strip_disj()
         for d in disjs:
             if d == goal.arg:
